@@ -32,6 +32,10 @@ type EvictionLimiter struct {
 	totalCount                 uint
 	nodePodCount               nodePodEvictedCount
 	namespacePodCount          namespacePodEvictCount
+	// evictions that passed AllowEvict and are neither Done nor Canceled yet
+	totalReserved        uint
+	nodePodReserved      nodePodEvictedCount
+	namespacePodReserved namespacePodEvictCount
 }
 
 func NewEvictionLimiter(
@@ -45,6 +49,8 @@ func NewEvictionLimiter(
 		maxPodsToEvictTotal:        maxPodsToEvictTotal,
 		nodePodCount:               make(nodePodEvictedCount),
 		namespacePodCount:          make(namespacePodEvictCount),
+		nodePodReserved:            make(nodePodEvictedCount),
+		namespacePodReserved:       make(namespacePodEvictCount),
 	}
 }
 
@@ -55,6 +61,9 @@ func (pe *EvictionLimiter) Reset() {
 	pe.totalCount = 0
 	pe.nodePodCount = make(nodePodEvictedCount)
 	pe.namespacePodCount = make(namespacePodEvictCount)
+	pe.totalReserved = 0
+	pe.nodePodReserved = make(nodePodEvictedCount)
+	pe.namespacePodReserved = make(namespacePodEvictCount)
 }
 
 // NodeEvicted gives a number of pods evicted for node
@@ -101,38 +110,68 @@ func (pe *EvictionLimiter) NamespaceLimitExceeded(namespace string) bool {
 	return false
 }
 
+// AllowEvict checks the limits and, if the eviction is allowed, reserves its slot until Done or Cancel is called,
+// so that evictions allowed concurrently cannot exceed the limits together.
 func (pe *EvictionLimiter) AllowEvict(pod *corev1.Pod) bool {
 	pe.lock.Lock()
 	defer pe.lock.Unlock()
 
 	nodeName := pod.Spec.NodeName
 	if nodeName != "" {
-		if pe.maxPodsToEvictPerNode != nil && pe.nodePodCount[pod.Spec.NodeName]+1 > *pe.maxPodsToEvictPerNode {
+		if pe.maxPodsToEvictPerNode != nil && pe.nodePodCount[nodeName]+pe.nodePodReserved[nodeName]+1 > *pe.maxPodsToEvictPerNode {
 			klog.ErrorS(fmt.Errorf("maximum number of evicted pods per node reached"), "Error evicting pod", "limit", *pe.maxPodsToEvictPerNode, "node", nodeName)
 			return false
 		}
 	}
 
-	if pe.maxPodsToEvictPerNamespace != nil && pe.namespacePodCount[pod.Namespace]+1 > *pe.maxPodsToEvictPerNamespace {
+	if pe.maxPodsToEvictPerNamespace != nil && pe.namespacePodCount[pod.Namespace]+pe.namespacePodReserved[pod.Namespace]+1 > *pe.maxPodsToEvictPerNamespace {
 		klog.ErrorS(fmt.Errorf("maximum number of evicted pods per namespace reached"), "Error evicting pod", "limit", *pe.maxPodsToEvictPerNamespace, "namespace", pod.Namespace)
 		return false
 	}
 
-	if pe.maxPodsToEvictTotal != nil && pe.totalCount+1 > *pe.maxPodsToEvictTotal {
+	if pe.maxPodsToEvictTotal != nil && pe.totalCount+pe.totalReserved+1 > *pe.maxPodsToEvictTotal {
 		klog.ErrorS(fmt.Errorf("maximum number of evicted pods total reached"), "Error evicting pod", "limit", *pe.maxPodsToEvictTotal)
 		return false
 	}
+
+	if nodeName != "" {
+		pe.nodePodReserved[nodeName]++
+	}
+	pe.namespacePodReserved[pod.Namespace]++
+	pe.totalReserved++
 	return true
 }
 
+func (pe *EvictionLimiter) releaseReservedNoLock(pod *corev1.Pod) {
+	if pod.Spec.NodeName != "" && pe.nodePodReserved[pod.Spec.NodeName] > 0 {
+		pe.nodePodReserved[pod.Spec.NodeName]--
+	}
+	if pe.namespacePodReserved[pod.Namespace] > 0 {
+		pe.namespacePodReserved[pod.Namespace]--
+	}
+	if pe.totalReserved > 0 {
+		pe.totalReserved--
+	}
+}
+
+// Done counts an eviction allowed by AllowEvict that succeeded.
 func (pe *EvictionLimiter) Done(pod *corev1.Pod) {
 	pe.lock.Lock()
 	defer pe.lock.Unlock()
 
+	pe.releaseReservedNoLock(pod)
 	if pod.Spec.NodeName != "" {
 		pe.nodePodCount[pod.Spec.NodeName]++
 	}
 	pe.namespacePodCount[pod.Namespace]++
 	pe.totalCount++
 	return
+}
+
+// Cancel gives back the slot of an eviction allowed by AllowEvict that failed.
+func (pe *EvictionLimiter) Cancel(pod *corev1.Pod) {
+	pe.lock.Lock()
+	defer pe.lock.Unlock()
+
+	pe.releaseReservedNoLock(pod)
 }
